@@ -40,7 +40,7 @@ SETS = {
 def describe(tier):
     return {
         "rule": "for each set (D dims, rows N, E categories): EVERY data vector per dimension and EVERY common value 0..E per dimension (E = absent) for the "
-        "index cube; the array cube from the same dense data as int64 with explicit shape and as the minimal unsigned dtype with inferred shape; x every call: "
+        "index cube; the array cube from the same dense data as int64 and int8 with explicit shape and as the minimal unsigned dtype with inferred shape (WIDE cubes: every of int8/16/32, uint16/32 that holds the values); x every call: "
         "aggregate in {count, valid_count, sum, mean} x ignore_missing x weight spec (none, scalar 2/0/NaN, arrays over {positive,0,missing}^N, (values,validity) "
         "forms with NaN/1e300 hidden) x fact spec (1-D or 2/3 columns, NaN-marked / (float,validity) hidden NaN or 1e300 / (int64,validity), missing patterns). "
         "All three (index cube, array cube, per-cell group-by in plain Python) must agree: missing cells exactly, values within 1e-9 x grand total; zero-dim "
@@ -160,6 +160,9 @@ def check_data(datas, E, N, cfg, acc, only_call=None, only_commons=None):
 
         run("xcube", lambda f2, w2: Q.call_cube(xcube(denses, interacting_shape=shape), agg, f2, w2, ignore, Q.PAIR), evals, emiss, {"variant": "int64-explicit"})
         acc.count("xcube_evals")
+        # a narrow SIGNED dtype, explicit shape ("any integer dtype")
+        run("xcube", lambda f2, w2: Q.call_cube(xcube([d.astype(numpy.int8) for d in denses], interacting_shape=shape), agg, f2, w2, ignore, Q.PAIR), evals, emiss, {"variant": "int8-explicit"})
+        acc.count("xcube_evals")
         # array cube from the unsigned dtype an index converts to, inferred shape (compared on its own shape)
         if N > 0:
             ev2, em2 = Q.oracle(agg, cells, x_inferred_shape, N, K, x, valid, w, wok, ignore)
@@ -241,6 +244,9 @@ def check_wide(shape, vals, datas, acc):
             ("xcube", "int64-explicit", lambda: xcube(denses, interacting_shape=shape)),
             ("xcube", "unsigned-explicit", lambda: xcube(xin, interacting_shape=shape)),
         ]
+        for sdt in (numpy.int8, numpy.int16, numpy.int32, numpy.uint16, numpy.uint32):
+            if all((int(d.max()) if d.size else 0) <= numpy.iinfo(sdt).max for d in denses):
+                variants.append(("xcube", numpy.dtype(sdt).name + "-explicit", (lambda t: (lambda: xcube([d.astype(t) for d in denses], interacting_shape=shape)))(sdt)))
         for kind, variant, mk in variants:
             try:
                 f2, _, _, _, w2, _, _ = realise(N, ws, fs)
